@@ -18,6 +18,8 @@ def main():
     env = "CARGO_NET_OFFLINE=true "
     # fresh verification in the worktree
     sh("git checkout -- . ; git clean -fdq -e target -e seeded.patch -e seeded_demo.rs -e seeded_meta.txt", cwd=wt)
+    if os.path.exists(os.path.join(wt, "tests/seeded_demo.rs")):
+        os.remove(os.path.join(wt, "tests/seeded_demo.rs"))
     rc, o = sh("git apply --check seeded.patch && git apply seeded.patch", cwd=wt)
     if rc != 0:
         print("patch does not apply to the pinned tree:", o); sys.exit(1)
